@@ -691,6 +691,11 @@ impl World {
     /// A captured datagram as the abstract record of the spec, obtained with the
     /// library's own reader told the true token mode, plus well-formedness problems (C04).
     pub fn proj_dg(&self, dg: &Dg) -> (Value, Vec<String>) {
+        self.proj_dg_hint(dg, Some(dg.has_token))
+    }
+    /// `hint`: what the 0.6 reader is told about the presence of a token (None: auto-detect, as an endpoint
+    /// without an agreed token mode does)
+    pub fn proj_dg_hint(&self, dg: &Dg, hint: Option<bool>) -> (Value, Vec<String>) {
         let mut problems = Vec::new();
         if dg.bytes.len() > 1400 {
             problems.push(format!("datagram of {} bytes", dg.bytes.len()));
@@ -745,7 +750,6 @@ impl World {
                 }
             }
         } else {
-            let hint = Some(dg.has_token);
             let r = catch(|| {
                 let mut w: Vec<p6::Warning> = Vec::new();
                 let mut probs = Vec::new();
